@@ -22,6 +22,7 @@ RULE = ("a case = one program (generated programs and corpus stories, with hosti
         "mutated, with errors); non-trivial when the session made at least one choice or printed an issue; distinct "
         "by program + inputs + mode")
 ASSUMPTIONS = ["input lines are separated by \\n and contain ASCII white space only",
+               "stories that use shuffles or RANDOM are left out: the tool draws a random story seed and offers no way to fix it",
                "the tool is run with the story as a compiled .json file for play, and with -o for compile"]
 EXPLANATION = ("Model: Ink/Cli.lean — the tool's output as a function of the library's results (the interpreter model) "
                "and the input lines. Theorems: the tool's string escaping is inverted by the JSON parser for EVERY "
@@ -172,7 +173,9 @@ def one_session(job):
     def is_divert(l):
         w = l.split()
         return len(w) == 2 and w[0] == "->" and l == l.strip()
-    if json_mode and rc == 0 and inputs and all((l.strip().isdigit() and 1 <= int(l) <= 9) or is_divert(l) for l in inputs):
+    def is_choice(l):
+        return l.strip() in ("1", "2", "3", "4", "5", "6", "7", "8", "9")     # ASCII digits only ("٣".isdigit() is true in Python)
+    if json_mode and rc == 0 and inputs and all(is_choice(l) or is_divert(l) for l in inputs):
         ops = [["new", story_path], ["fallbacks", True], ["handler"]]
         shown = []
         sess = play.RtSession()
@@ -273,6 +276,15 @@ def run(ctx):
     pool += stories.probe_pool(ctx, "c20") * 3      # knot names that differ only in case, non-ASCII names
     docs = []
     for s in pool:
+        try:
+            raw = open(s["path"], encoding="utf-8").read()
+        except Exception:
+            continue
+        if any(t in raw for t in ('"seq"', '"rnd"', '"lrnd"')):
+            # the tool draws a random story seed and has no option to fix it: what a shuffle or RANDOM shows
+            # cannot be predicted by the model or repeated by the library
+            ctx.count("stories_with_randomness_left_out")
+            continue
         docs.append((s["path"], s["meta"]))
         try:
             d = json.load(open(s["path"], encoding="utf-8"))
